@@ -1584,7 +1584,8 @@ MANIFEST = {
             "under both settings of always_return_list; the monitor compares the stored values with a list-wrapping model, "
             "compares astuple/_jsonify/str and the per-key views between the two settings, runs the real "
             "_jsonify/_unjsonify/Feature(attributes=text) round trip beside the stdlib json reader, stores features with "
-            "create_db/update and reads them back (FeatureDB, reopened FeatureDB, raw sqlite3), judges "
+            "create_db/update (lone surrogates and astral characters included) and reads them back (FeatureDB, reopened "
+            "FeatureDB, FeatureDB with a latin-1 decoding text_factory, raw sqlite3 bytes: valid ASCII-only JSON), judges "
             "merge_attributes against a union model with argument snapshots, and checks ==, != and hash on all ordered "
             "pairs of feature pools against equality of the printed lines. Held = no executed case disagreed.",
     "note": "Trusted: stdlib json/sqlite3, the 60-line model. Not asked: tuple-valued merge arguments, order of equal "
